@@ -99,7 +99,7 @@ func (h *TwoPartyHandler) canAdvance() bool {
 
 func extractRoundMessage(r round.Session, msg *Message) (round.Message, error) {
 	content := r.MessageContent()
-	if err := cbor.Unmarshal(msg.Data, content); err != nil {
+	if err := unmarshalContent(msg.Data, content); err != nil {
 		return round.Message{}, fmt.Errorf("failed to unmarshal message: %w", err)
 	}
 	roundMsg := round.Message{
